@@ -47,11 +47,16 @@ theorem hResourcesRead_faithful (S : Server) : Faithful (hResourcesRead S) := by
   · exact respondErr_ret _ _ _ _ _ h hid
   · exact respondErr_ret _ _ _ _ _ h hid
 
-theorem hCustom_faithful (b : CBeh) (hb : b ≠ .silent) : Faithful (hCustom b) := by
+theorem hCustom_faithful (b : CBeh) (hb : b.Proper) : Faithful (hCustom b) := by
   intro m resp s i h hid
   cases b with
   | answers r => exact respond_ret _ _ _ _ _ _ h hid
-  | silent => exact absurd rfl hb
+  | silent => exact absurd hb (by simp [CBeh.Proper])
+  | acks j t => exact absurd hb (by simp [CBeh.Proper])
+  | echoes r =>
+    simp only [hCustom, hid, Option.getD_some] at h
+    cases h
+    exact ⟨_, rfl, rfl⟩
   | raises => simp [hCustom] at h
   | returnsNonsense => simp [hCustom] at h
 
@@ -63,11 +68,11 @@ theorem hInitialized_faithful : Faithful hInitialized := by
 /-- every handler an `MCPServer` can have in its table is faithful, whatever the application's
 tools, resources and custom methods do — except a custom method that chooses to stay silent -/
 theorem serverReg_faithful (S : Server) (meth : String) (h : Handler)
-    (hs : S.custom meth ≠ some .silent) (hr : serverReg S meth = some h) : Faithful h := by
+    (hs : ∀ b, S.custom meth = some b → b.Proper) (hr : serverReg S meth = some h) : Faithful h := by
   unfold serverReg serverRegWith at hr
   split at hr
   · rename_i b hb
-    cases hr; exact hCustom_faithful _ (by intro e; subst e; exact hs hb)
+    cases hr; exact hCustom_faithful _ (hs b hb)
   · split at hr
     · cases hr; exact respond_faithful _ _
     · split at hr
